@@ -1,10 +1,15 @@
 """C15 - compiled selectors are immutable values; the pattern cache is transparent."""
 from __future__ import annotations
 
+import base64
 import contextlib
 import copy
 import io
+import json
+import os
 import pickle
+import subprocess
+import sys
 import time
 import warnings
 
@@ -23,7 +28,9 @@ META = {
             'attacked with setattr (existing and new names), delattr, item assignment/deletion/update/clear and must '
             'stay == / same hash / same repr; hash works on every part; x == y <=> equal (pattern, namespaces, custom, '
             'flags) over all generated pairs and equal objects have equal hashes; pickle (all protocols), copy, '
-            'deepcopy give an equal object with equal hash selecting the same elements. (b) histories: '
+            'deepcopy give an equal object with equal hash selecting the same elements; keys also vary in argument type '
+            'only (bool vs int flags, str-subclass pattern and map entries); pickles written by another interpreter '
+            'process (other string-hash seed) must load to an equal object with equal hash. (b) histories: '
             'RuleBasedStateMachine with rules compile(key from a pool of near-collisions), compile_many(n distinct '
             'patterns, n up to 700 > the cache bound), purge(), compile(compiled), compile(compiled, extra argument); '
             'invariants: the result equals a fresh parse of the same key and selects the same elements, currsize <= '
@@ -67,14 +74,25 @@ def key_valid(pat, custom):
     return all(n in have for n in need)
 
 
+class Str(str):
+    """A str subclass: equal to the plain string, of another type (argument-type variation)."""
+
+
+def retype(d):
+    return None if d is None else {Str(k): Str(v) for k, v in d.items()}
+
+
 def norm_key(key):
-    pat, ns, custom, flags = key
+    pat, ns, custom, flags = key[:4]
     return (pat, None if ns is None else tuple(sorted(ns.items())), None if custom is None else tuple(sorted(custom.items())),
             flags)
 
 
 def do_compile(key):
-    pat, ns, custom, flags = key
+    pat, ns, custom, flags = key[:4]
+    if len(key) > 4 and key[4]:
+        # same key, other argument types: a str subclass for the pattern and the map entries
+        pat, ns, custom = Str(pat), retype(ns), retype(custom)
     kw = {}
     if custom is not None:
         kw['custom'] = custom
@@ -194,7 +212,7 @@ def check_value(key, other_key):
     if fresh_before != fresh:
         fails.append(('fresh-parses-differ', ctx))
     # the caller's own dicts are not part of the value: mutate them after compile
-    pat, ns, custom, flags = key
+    pat, ns, custom, flags = key[:4]
     ns_arg = dict(ns) if ns is not None else None
     cu_arg = dict(custom) if custom is not None else None
     sv.purge()
@@ -263,13 +281,20 @@ def gen_key(ch, rich):
     custom = ch.pick(CUSTOM_POOL)
     if not key_valid(pat, custom):
         custom = ch.pick([c for c in CUSTOM_POOL if key_valid(pat, c)])
-    return [pat, ch.pick(NS_POOL), custom, ch.pick((0, 0, sv.DEBUG))]
+    return [pat, ch.pick(NS_POOL), custom, ch.pick((0, 0, 0, sv.DEBUG, False, True))]
 
 
 def perturb_key(ch, key):
     k = list(key)
-    r = ch.i(0, 5)
+    r = ch.i(0, 6)
     if r == 0:
+        return k
+    if r == 6:
+        # the same key with other argument types: bool <-> int flags, str-subclass pattern and map entries
+        if ch.p(0.5):
+            k[3] = bool(k[3]) if type(k[3]) is int else int(k[3])
+        else:
+            k = k[:4] + [True]
         return k
     if r == 1:
         k[0] = ch.pick(PATTERNS)
@@ -278,7 +303,7 @@ def perturb_key(ch, key):
     elif r == 3:
         k[2] = ch.pick(CUSTOM_POOL)
     elif r == 4:
-        k[3] = sv.DEBUG if not k[3] else 0
+        k[3] = ch.pick((sv.DEBUG, True)) if not k[3] else ch.pick((0, False))
     else:
         # same maps, other insertion order
         if k[1]:
@@ -293,6 +318,8 @@ def perturb_key(ch, key):
 def replay(case):
     if 'history' in case:
         fails = run_history(case['history'])
+    elif 'foreign' in case:
+        fails = check_foreign(case['foreign'], case.get('hashseed_n') or 1)
     else:
         fails, _ = check_value(tuple(case['key']), tuple(case['other']))
     return fails[0] if fails else None
@@ -445,6 +472,62 @@ def make_machine(col):
     return Machine
 
 
+def run_foreign_pickles(col, ctx, n):
+    """Pickles written by another interpreter process (its own string-hash seed) must load to equal objects with equal
+    hashes that select the same elements - persistence and inter-process transport are what pickling is for."""
+    keys = []
+
+    def body(c):
+        if len(keys) < n:
+            keys.append(gen_key(c, True))
+    common.hyp_run(choose.choices(1024), body, n, ctx['hseed'] + 77, deadline_ts=ctx['t_end'])
+    if not keys:
+        return
+    env = dict(os.environ, PYTHONHASHSEED=str(1 + ctx['shard'] + 17 * (ctx['hseed'] % 1000)), VERIF_REPO=common.REPO,
+               PYTHONDONTWRITEBYTECODE='1')
+    worker = os.path.join(common.VERIF, 'fuzz', 'c15_pickler.py')
+    p = subprocess.run([sys.executable, worker], input=json.dumps(keys), env=env, capture_output=True, text=True, timeout=300)
+    if p.returncode != 0:
+        raise common.HarnessError(f'C15 pickler failed: {p.stderr[-400:]}')
+    blobs = json.loads(p.stdout)
+    doc = witness()
+    for key, b in zip(keys, blobs):
+        col.count()
+        col.classify('foreign-pickle')
+        case = {'foreign': key, 'hashseed_n': int(env['PYTHONHASHSEED'])}
+        try:
+            u = pickle.loads(base64.b64decode(b))
+        except Exception as e:  # noqa: BLE001
+            col.fail('foreign-pickle-does-not-load', case, f'{key!r}: {e!r:.150}')
+            continue
+        sv.purge()
+        c = do_compile(tuple(key))
+        if key[1] or key[2]:
+            col.nontrivial_case(['foreign', key], {'key': key, 'pickled_under_hashseed': env['PYTHONHASHSEED']})
+        if not (u == c and c == u and not (u != c)):
+            col.fail('foreign-pickle-not-equal', case, f'{key!r}: a pickle written by another process is != the same selector compiled here')
+        elif hash(u) != hash(c):
+            col.fail('foreign-pickle-equal-but-different-hash', case, f'{key!r}: unpickled == compiled here, but their hashes differ (pickled under PYTHONHASHSEED={env["PYTHONHASHSEED"]})')
+        elif [id(x) for x in quiet(u.select, doc.target)] != [id(x) for x in quiet(c.select, doc.target)]:
+            col.fail('foreign-pickle-selects-differently', case, repr(key))
+
+
+def check_foreign(key, hashseed):
+    env = dict(os.environ, PYTHONHASHSEED=str(hashseed), VERIF_REPO=common.REPO, PYTHONDONTWRITEBYTECODE='1')
+    worker = os.path.join(common.VERIF, 'fuzz', 'c15_pickler.py')
+    p = subprocess.run([sys.executable, worker], input=json.dumps([key]), env=env, capture_output=True, text=True, timeout=300)
+    if p.returncode != 0:
+        raise common.HarnessError(f'C15 pickler failed: {p.stderr[-400:]}')
+    u = pickle.loads(base64.b64decode(json.loads(p.stdout)[0]))
+    sv.purge()
+    c = do_compile(tuple(key))
+    if not (u == c and c == u and not (u != c)):
+        return [('foreign-pickle-not-equal', repr(key))]
+    if hash(u) != hash(c):
+        return [('foreign-pickle-equal-but-different-hash', repr(key))]
+    return []
+
+
 def shard(ctx):
     col = common.Collector()
     tier = ctx['tier']
@@ -463,12 +546,16 @@ def shard(ctx):
             col.nontrivial_case([key, other], {'key': key, 'other': other, 'equal': same})
         if reordered:
             col.classify('same-maps-other-insertion-order')
+        if same and (type(key[3]) is not type(other[3]) or len(other) > 4):
+            col.classify('same-key-other-argument-types')
+            col.nontrivial_case([key, other], {'key': key, 'other': other, 'equal': same})
         for b, d in fails[:2]:
             col.fail(b, {'key': key, 'other': other}, d)
 
     ex = common.hyp_run(choose.choices(2048), body, 20000 if tier == 'quick' else 2000000, ctx['hseed'],
                         deadline_ts=t_val_end)
     col.extra['values_budget_exhausted'] = int(ex)
+    run_foreign_pickles(col, ctx, 60 if tier == 'quick' else 600)
     Machine = make_machine(col)
     sett = settings(max_examples=10, stateful_step_count=40, deadline=None, database=None, phases=[Phase.generate],
                     suppress_health_check=list(HealthCheck), report_multiple_bugs=False, print_blob=False)
